@@ -4,6 +4,7 @@ import (
 	"verifharness/kit/driver"
 	"verifharness/props/c01"
 	"verifharness/props/c02"
+	"verifharness/props/c03"
 	"verifharness/props/c04"
 	"verifharness/props/c05"
 	"verifharness/props/c06"
@@ -11,6 +12,7 @@ import (
 	"verifharness/props/c12"
 	"verifharness/props/c13"
 	"verifharness/props/c14"
+	"verifharness/props/c16"
 	"verifharness/props/c17"
 	"verifharness/props/c18"
 	"verifharness/props/c21"
@@ -27,10 +29,14 @@ import (
 	"verifharness/props/c33"
 	"verifharness/props/c34"
 	"verifharness/props/c35"
+	"verifharness/props/c36"
 	"verifharness/props/c38"
 )
 
 var checks = map[string]driver.Check{
+	"C03": {Level: "exploration", Fn: c03.Run},
+	"C16": {Level: "fault_enumeration", Fn: c16.Run},
+	"C36": {Level: "exploration", Fn: c36.Run},
 	"C38": {Level: "exploration", Fn: c38.Run},
 	"C26": {Level: "fault_enumeration", Fn: c26.Run},
 	"C25": {Level: "fault_enumeration", Fn: c25.Run},
